@@ -36,6 +36,9 @@ Round 4:
   `refine` with a code id of its own.  A query method that re-fills, converts or replaces a slot that the
   properties iterate (e.g. turning the cached list into a set for faster look-ups) then violates T1/T2 of
   `wellFormed` and the table machine answers `alias` for the property read after it.
+* an override that delegates (`Base.m(self, ..)`, `super().m(..)`) has the effects of the base method it runs
+  (e.g. HourlyContinuousCollection.convert_to_culled_timestep: check divisibility, then the base cull); a
+  base call that cannot be resolved raises ExtractError.
 """
 import ast
 import hashlib
@@ -110,10 +113,19 @@ class ClassInfo(object):
         self.getters, self.setters, self.methods = {}, {}, {}
         # members inherited from base classes (nearest base last, the class itself overrides all)
         body = []
+        owner_of = {}
+        self.base_names = [bname for _, bname in bases]
         for brel, bname in bases:
             btree, _ = parse_file(brel)
-            body += find_class(btree, bname).body
+            bb = find_class(btree, bname).body
+            for n in bb:
+                owner_of[id(n)] = bname
+            body += bb
+        for n in cls.body:
+            owner_of[id(n)] = cname
         body += cls.body
+        # methods of a base class that a nearer class overrides (reached by `Base.m(self, ..)` / `super().m(..)`)
+        self.shadowed = {}
         self.funcnames = set(f.name for f in body if isinstance(f, ast.FunctionDef))
         # class-level attributes (shared by all instances until an instance assigns its own)
         self.class_attrs = set()
@@ -140,6 +152,9 @@ class ClassInfo(object):
             elif kind == 'setter':
                 self.setters[f.name] = f
             elif kind == 'method':
+                if f.name in self.methods:
+                    prev = self.methods[f.name]
+                    self.shadowed.setdefault(f.name, []).append((owner_of.get(id(prev)), prev))
                 self.methods[f.name] = f
                 self.getters.pop(f.name, None)
         if '__init__' not in self.methods:
@@ -265,6 +280,42 @@ class ClassInfo(object):
             self._memo[key] = ef
         return self._memo[key]
 
+    def _base_call(self, n):
+        """`Base.m(self, ...)` / `super().m(...)` / `super(C, self).m(...)` -> the function node it runs
+        (None: not such a call).  Round 4 (an override that checks and then delegates to the base method)."""
+        if not (isinstance(n, ast.Call) and isinstance(n.func, ast.Attribute)):
+            return None
+        base, name = n.func.value, n.func.attr
+        owner = False
+        if isinstance(base, ast.Name) and base.id in self.base_names + [self.cname] and n.args \
+                and isinstance(n.args[0], ast.Name) and n.args[0].id == 'self':
+            owner = base.id
+        elif isinstance(base, ast.Call) and isinstance(base.func, ast.Name) and base.func.id == 'super':
+            owner = None
+        if owner is False:
+            return None
+        cands = self.shadowed.get(name, [])
+        if owner is not None:
+            cands = [c for c in cands if c[0] == owner]
+        if cands:
+            return cands[-1][1]
+        if name in self.methods:        # not overridden: the inherited method itself
+            return self.methods[name]
+        if name in ('__init__',) or name.startswith('__'):
+            return None
+        raise ExtractError('%s.%s: call of base-class method %s at line %d cannot be resolved'
+                           % (self.rel, self.cname, name, n.lineno))
+
+    def _node_eff(self, fn, stack):
+        key = ('n', id(fn))
+        if key in stack:
+            return Eff()
+        if key not in self._memo:
+            ef = self.effects(fn.body, stack + (key,), fn=fn)
+            ef.code.append('%s:%s' % (fn.name, ast.dump(ast.Module(body=fn.body, type_ignores=[]))))
+            self._memo[key] = ef
+        return self._memo[key]
+
     def getter_parts(self, name, stack=(), fn=None):
         """(guarded blocks [(guard_attrs, stmts)], unguarded stmts) of a getter (or of the public method `fn`)."""
         f = fn if fn is not None else self.getters[name]
@@ -364,6 +415,14 @@ class ClassInfo(object):
                 e.reads.add(n.target.attr)
                 e.direct.add(n.target.attr)
             self._visit(n.value, e, stack)
+            return
+        bfn = self._base_call(n)
+        if bfn is not None:
+            e.merge(self._node_eff(bfn, stack))
+            for a in n.args:
+                self._visit(a, e, stack)
+            for k in n.keywords:
+                self._visit(k.value, e, stack)
             return
         if isinstance(n, ast.Call) and _is_self_attr(n.func) and n.func.attr in self.methods:
             e.merge(self._method_eff(n.func.attr, stack))
